@@ -32,6 +32,16 @@ Inductive kind :=
 
 Inductive pc_t := AtEv (k : kind) | WaitBall | WaitPlayer | WaitEmpty | Done.
 
+(* operations on what surrounds the coroutine: the stop procedure of the game mode (Mode.stop -> mode_game_stopping ->
+   Game._stop_game_modes -> AsyncMode._stopped) and a further game mode with stop_on_ball_end: false.  They do not touch
+   the state of the coroutine; Outer.v gives them their meaning. *)
+Inductive aux :=
+| StopGame                 (* modes.game.stop() from outside (service mode entered, machine code) *)
+| MStart                   (* the further game mode gets its start event *)
+| MStop (hold : bool)      (* it gets its own stop event; hold: a handler of mode_<name>_stopping keeps the queue *)
+| MRelease                 (* that handler clears the queue *)
+| Noise.                   (* start/stop of a game mode with stop_on_ball_end: true whose stop is never held *)
+
 Inductive op :=
 | Drain (n : Z)            (* relay event ball_drain, balls=n (n=0: the ball was saved); the n balls leave the playfield *)
 | PfAdd (d : Z)            (* playfield.available_balls += d: stray ball rolls into the drain (d<0), ball found / lost (d>0) *)
@@ -41,7 +51,8 @@ Inductive op :=
 | SlamTilt                 (* Tilt.slam_tilt: slam_tilted = True; tilt() -> end_ball() unless the game is ending *)
 | AddPlayerReq (allowed : bool)   (* game.request_player_add(); [allowed] = answer of the player_add_request handlers *)
 | ReleaseAdd (newest : bool)      (* a handler that held a player_adding queue open clears it (oldest / newest one) *)
-| AwardExtra.              (* game.player.extra_balls += 1 (when there is a current player) *)
+| AwardExtra               (* game.player.extra_balls += 1 (when there is a current player) *)
+| Aux (a : aux).           (* acts on the game's surroundings only (Outer.v): no effect on the coroutine's own state *)
 
 Record cfg := mkcfg { bpg : nat; maxp : nat; nbk : Z; own_ok : bool; hold_adds : bool }.
 (* balls_per_game, max_players, ball_controller.num_balls_known, answer to the game's own first player_add_request,
@@ -147,6 +158,7 @@ Definition op_st (v : variant) (c : cfg) (s : st) (o : op) : st :=
       | k :: q => set_rels (rels s ++ [k]) (set_heldq (if newest then rev q else q) s)
       end
   | AwardExtra => upd_cur (fun be => (fst be, S (snd be))) s
+  | Aux _ => s
   end.
 
 Definition opcode (s : st) (o : op) : Z :=
